@@ -230,7 +230,8 @@ def process_obligations(ctx, timeout_ms):
 
 def finish(ctx, level, n_disch, checker_cmd, explanation):
     known_lines, viol_lines = [], []
-    os.makedirs(os.path.join(VERIF, 'replays'), exist_ok=True)
+    rdir = os.environ.get('VERIF_REPLAY_DIR', 'replays')
+    os.makedirs(os.path.join(VERIF, rdir), exist_ok=True)
     new_violations = 0
     known_hit = []
     for v in ctx.violations:
@@ -240,7 +241,7 @@ def finish(ctx, level, n_disch, checker_cmd, explanation):
             continue
         new_violations += 1
         safe = re.sub(r'[^A-Za-z0-9_.-]+', '_', '%s-%s-%s' % (ctx.prop, v.obligation, v.key))[:150]
-        path = os.path.join('replays', safe + '.json')
+        path = os.path.join(rdir, safe + '.json')
         v.path = path
         with open(os.path.join(VERIF, path), 'w') as f:
             json.dump({'property': ctx.prop, 'obligation': v.obligation, 'key': v.key, 'what': v.what,
@@ -302,9 +303,16 @@ def finish(ctx, level, n_disch, checker_cmd, explanation):
         'violations': new_violations,
     }
     os.makedirs(os.path.join(VERIF, 'evidence'), exist_ok=True)
-    with open(os.path.join(VERIF, 'evidence', ctx.prop + '.json'), 'w') as f:
+    with open(os.path.join(VERIF, 'evidence', ctx.prop + os.environ.get('VERIF_EVIDENCE_SUFFIX', '') + '.json'), 'w') as f:
         json.dump(ev, f, indent=1, default=str)
 
+    if new_violations:
+        # a broken callee contract makes callers' cross-checks disagree with CPython: that is the violation
+        # already reported, not an engine error
+        keep = []
+        for e in ctx.errors:
+            (ctx.notes if e.startswith('engine cross-check') else keep).append(e)
+        ctx.errors = keep
     for line in known_lines:
         print(line)
     if ctx.errors:
@@ -350,10 +358,10 @@ def main(argv=None):
             except I.Unsupported as e:
                 ctx.undecide('build', 'construct not modelled by the executor: %s' % e)
                 ctx.notes.append(traceback.format_exc()[-1500:])
-        if len(ctx.obligations) == 0 and not args.no_proof and getattr(mod, 'EXPECT_OBLIGATIONS', True) and not ctx.undecided:
-            ctx.errors.append('zero obligations generated')
         timeout = 10000 if args.tier == 'quick' else 60000
         run_tasks(ctx, timeout)
+        if len(ctx.obligations) == 0 and not args.no_proof and getattr(mod, 'EXPECT_OBLIGATIONS', True) and not ctx.undecided:
+            ctx.errors.append('zero obligations generated')
         n = process_obligations(ctx, timeout)
         if args.tier == 'thorough' and ctx.obligations and os.environ.get('VERIF_NO_SECOND') != '1':
             agree, bad = V.crosscheck_solvers(ctx.obligations)
